@@ -17,8 +17,10 @@ sed -i "s#/tmp/w[t0-9][0-9]*_C[0-9]*#$WT#g" _seeded/demo.py
 timeout 900 /venv/bin/python _seeded/demo.py > /tmp/demo_clean_$ID.log 2>&1; RC_CLEAN=$?
 git apply "$OUT/patch.diff" || { echo "patch does not apply"; cd /; git -C /repo worktree remove --force "$WT"; exit 2; }
 timeout 900 /venv/bin/python _seeded/demo.py > /tmp/demo_changed_$ID.log 2>&1; RC_CHANGED=$?
-TESTS=$(timeout 1800 /venv/bin/python -m pytest -q -p no:cacheprovider --timeout=900 --continue-on-collection-errors --ignore=_seeded 2>&1 | tail -1)
-echo "demo clean rc=$RC_CLEAN changed rc=$RC_CHANGED tests: $TESTS"
+# the pinned test command runs beside the checks (both only read the scratch worktree)
+(timeout 1800 /venv/bin/python -m pytest -q -p no:cacheprovider --timeout=900 --continue-on-collection-errors --ignore=_seeded 2>&1 | tail -1 > /tmp/tests_$ID.txt) &
+TESTPID=$!
+echo "demo clean rc=$RC_CLEAN changed rc=$RC_CHANGED"
 cd /verif
 RESULTS=""
 for P in $PROP "$@"; do
@@ -27,6 +29,7 @@ for P in $PROP "$@"; do
   echo "check $P rc=$RC $TAGS"
   RESULTS="$RESULTS{\"check\":\"$P\",\"exit\":$RC,\"tags\":\"$TAGS\"},"
 done
+wait $TESTPID; TESTS=$(cat /tmp/tests_$ID.txt); echo "tests: $TESTS"
 cat > "$OUT/meta.json" <<EOM
 {"id": "$ID", "property": "$PROP", "demo_exit_unchanged": $RC_CLEAN, "demo_exit_changed": $RC_CHANGED, "tests_with_change": "$TESTS",
  "checks_run": [${RESULTS%,}],
